@@ -48,6 +48,9 @@ pub enum Fault {
     Torn { k: u64 },
     /// every open/opendir fails with EMFILE for the duration of the call
     OpenFail,
+    /// the next access of this call to pool layer `l` fails with EIO while the
+    /// other layers keep working (cfg seam in FileSystemLayer)
+    Io { l: usize },
 }
 
 #[derive(Serialize, Deserialize, Clone, Debug, PartialEq)]
@@ -95,7 +98,7 @@ pub struct Cfg {
     pub max_ops: usize,
 }
 
-const NAMES: &[&str] = &["a", "Sub", "S2", "x y", "名", ".hid", "d.e", "m", "@E", "e_f"];
+const NAMES: &[&str] = &["a", "Sub", "S2", "x y", "名", ".hid", "d.e", "m", "@E", "e_f", "tr ", " ld"];
 const FILES: &[&str] = &["one.bin", "two.txt", "f.bin.lz", "g.cmp", "h.cms", "q.bin", "t.txt.lz", "データ.bin", "e_one.bin", "noext"];
 const PATTERNS: &[Option<&str>] = &[None, Some("*"), Some("*.bin"), Some("*/*"), Some("**/*.txt"), Some("**/*.bin.lz"), Some("S*/*"), Some("?.bin")];
 
@@ -269,11 +272,42 @@ impl Drop for LimitGuard {
 }
 
 /// run a mila call with the fault attached to it
+fn arm_io(fault: &Option<Fault>, op: &str, root: &Path) {
+    if let Some(Fault::Io { l }) = fault {
+        #[cfg(mila_verif)]
+        mila::verif_seam::set_io_fault(op, &layer_dir(root, *l).to_string_lossy());
+        let _ = (op, root, l);
+    }
+}
+
+/// disarm; returns true when the armed fault was consumed by the call
+fn disarm_io(before: u64) -> bool {
+    #[cfg(mila_verif)]
+    {
+        mila::verif_seam::clear_io_fault();
+        return mila::verif_seam::io_faults_fired() > before;
+    }
+    #[allow(unreachable_code)]
+    {
+        let _ = before;
+        false
+    }
+}
+
+fn io_fired_count() -> u64 {
+    #[cfg(mila_verif)]
+    {
+        return mila::verif_seam::io_faults_fired();
+    }
+    #[allow(unreachable_code)]
+    0
+}
+
 fn faulted<T>(ctx: &mut RunCtx, fault: &Option<Fault>, api: &str, f: impl FnOnce() -> T) -> Step<T> {
     let guard = match fault {
         Some(Fault::Torn { k }) => Some(set_limit(libc::RLIMIT_FSIZE, *k)),
         Some(Fault::OpenFail) => Some(set_limit(libc::RLIMIT_NOFILE, 0)),
-        None => None,
+        _ => None,
     };
     let r = guarded(f);
     drop(guard);
@@ -418,13 +452,31 @@ fn gen_op(r: &mut Rng, m: &FsModel, cfg: &Cfg, prop: &str, step: usize) -> Op {
                 data.truncate(600); // LZ13 compression is quadratic
             }
             let fault = if fault_on {
-                Some(if r.chance(3, 5) { Fault::Torn { k: r.below(data.len() + 2) as u64 } } else { Fault::OpenFail })
+                Some(match r.weighted(&[5, 3, 3]) {
+                    0 => Fault::Torn { k: r.below(data.len() + 2) as u64 },
+                    1 => Fault::OpenFail,
+                    _ => Fault::Io { l: *hc.stack.last().unwrap() },
+                })
             } else {
                 None
             };
             Op::Write { h, path, data, loc, fault }
         }
-        2 => Op::Read { h, path: pick_path(r, Some(true)), loc, fault: if fault_on { Some(Fault::OpenFail) } else { None } },
+        2 => {
+            let path = pick_path(r, Some(true));
+            let fault = if fault_on {
+                // fail the layer that holds the top-most copy (so that lower copies stay readable), or any layer
+                let holder = model_path(hc, &path, loc).ok().and_then(|c| m.find(&hc.stack, &c, Kind::File));
+                Some(match (r.weighted(&[2, 5]), holder) {
+                    (1, Some(l)) => Fault::Io { l },
+                    (1, None) => Fault::Io { l: hc.stack[r.below(hc.stack.len())] },
+                    _ => Fault::OpenFail,
+                })
+            } else {
+                None
+            };
+            Op::Read { h, path, loc, fault }
+        }
         3 => Op::Exists { h, path: pick_path(r, None), loc, kind: r.pick(&["any", "file", "dir"]).to_string() },
         4 => Op::Resolve { h, path: pick_path(r, None), loc },
         5 => Op::CreateDir { h, path: pick_path(r, Some(false)), loc },
@@ -435,7 +487,8 @@ fn gen_op(r: &mut Rng, m: &FsModel, cfg: &Cfg, prop: &str, step: usize) -> Op {
                 _ => format!("{}/", pick_path(r, Some(false))),
             };
             let dir = if loc && dir.is_empty() { "Sub".to_string() } else { dir };
-            Op::List { h, dir, pat: r.pick(PATTERNS).map(|s| s.to_string()), loc, fault: if fault_on { Some(Fault::OpenFail) } else { None } }
+            let fault = if fault_on { Some(if r.chance(1, 2) { Fault::OpenFail } else { Fault::Io { l: hc.stack[r.below(hc.stack.len())] } }) } else { None };
+            Op::List { h, dir, pat: r.pick(PATTERNS).map(|s| s.to_string()), loc, fault }
         }
         7 => {
             let dir = if r.chance(1, 4) && !loc { String::new() } else { pick_path(r, Some(false)) };
@@ -735,6 +788,27 @@ fn loc_owner(w: &World, h: usize, path: &str, loc: bool, default: &'static str) 
     }
 }
 
+/// A localized operation disagreed with the model although mila's localizer
+/// agrees with the table: if the same operation, unlocalized, on the
+/// table-localized path agrees with the model, the operation applied the wrong
+/// mapping ("all filesystem operations apply the same mapping" is C14's clause).
+fn refine_owner(w: &World, h: usize, path: &str, loc: bool, owner: &'static str, unloc_matches: &dyn Fn(&LayeredFilesystem, &str) -> bool) -> &'static str {
+    if !loc || owner == "C14" {
+        return owner;
+    }
+    let hc = &w.handles[h].cfg;
+    match localize_spec(hc.game, hc.lang, path) {
+        Ok(c) => {
+            let p = key(&c);
+            match guarded(|| unloc_matches(&w.handles[h].fs, &p)) {
+                Ok(true) => "C14",
+                _ => owner,
+            }
+        }
+        Err(_) => owner,
+    }
+}
+
 fn single_component_file_op(path: &str, loc: bool) -> bool {
     // a localized single-component path denotes a directory; using it as a
     // file name hands the OS a trailing slash, which is not mila's contract
@@ -764,10 +838,17 @@ fn do_write(
     let mp = model_path(&hc, path, loc);
     let compressed = hc.game.compressed_name(path);
     let before = w.m.clone();
+    let fired0 = io_fired_count();
+    arm_io(fault, "write", &w.root);
     let got = {
         let fs = &w.handles[h].fs;
-        faulted(ctx, fault, api, || call(fs))?
+        let r = faulted(ctx, fault, api, || call(fs));
+        let io_fired = disarm_io(fired0);
+        (r?, io_fired)
     };
+    let (got, io_fired) = got;
+    // an armed per-layer fault that was never reached leaves an ordinary call
+    let fault: &Option<Fault> = if matches!(fault, Some(Fault::Io { .. })) && !io_fired { &None } else { fault };
     ctx.outcome(api, if got.is_ok() { "ok" } else { "err" }, &match &got {
         Ok(()) => "ok".to_string(),
         Err(e) => err_kind(e).to_string(),
@@ -809,6 +890,19 @@ fn do_write(
             }
             if matches!(before.layers[top].node(&c), Some(Node::File(_))) {
                 ctx.probe("write_replaces_top_layer_file");
+            }
+            let mut owner = owner;
+            if loc && owner != "C14" {
+                // did the write land where an unlocalized (or differently localized) write would have put it?
+                if let Ok(snap) = snapshot(&w.root, w.cfg.layers) {
+                    let matches_expected = (0..w.cfg.layers).all(|l| layer_diff(&snap[l], &exp_ok.layers[l]).is_none());
+                    if !matches_expected {
+                        let content_elsewhere = snap[top].nodes.iter().any(|(k, n)| k != &key(&c) && before.layers[top].nodes.get(k) != Some(n) && matches!(n, Node::File(b) if Some(b) == stored.as_ref()));
+                        if content_elsewhere {
+                            owner = "C14";
+                        }
+                    }
+                }
             }
             verify_disk(ctx, w, &[exp_ok], owner, api, Some(top), false)?;
             if compressed {
@@ -855,11 +949,11 @@ fn do_write(
             let _ = torn.write(top, &c, s[..k].to_vec());
             verify_disk(ctx, w, &[torn], owner, api, Some(top), false)
         }
-        Some(Fault::OpenFail) => {
-            ctx.fault("open_fail");
+        Some(Fault::OpenFail) | Some(Fault::Io { .. }) => {
+            ctx.fault(if matches!(fault, Some(Fault::OpenFail)) { "open_fail" } else { "io_error_write" });
             w.faults += 1;
             if got.is_ok() {
-                return ctx.violation_for(owner, "fault_reported", format!("{}|open_failure_reported_ok", api), format!("{}({:?}): the file could not be opened, yet the call returned Ok", api, path));
+                return ctx.violation_for(owner, "fault_reported", format!("{}|open_failure_reported_ok", api), format!("{}({:?}): the file could not be written, yet the call returned Ok", api, path));
             }
             // parents may or may not have been created before the open failed
             let mut with_dirs = before.clone();
@@ -1194,6 +1288,8 @@ fn exec(ctx: &mut RunCtx, w: &mut World, op: &Op) -> Step<()> {
             ctx.owner = owner.to_string();
             let exp = expect_read(w, *h, path, *loc);
             let hc = w.handles[*h].cfg.clone();
+            let fired0 = io_fired_count();
+            let mut io_fired = false;
             let got = {
                 let fs = &w.handles[*h].fs;
                 let r = {
@@ -1201,10 +1297,12 @@ fn exec(ctx: &mut RunCtx, w: &mut World, op: &Op) -> Step<()> {
                         Some(Fault::OpenFail) => Some(set_limit(libc::RLIMIT_NOFILE, 0)),
                         _ => None,
                     };
+                    arm_io(fault, "read", &w.root);
                     let r = guarded(|| fs.read(path, *loc));
                     drop(guard);
                     r
                 };
+                io_fired = disarm_io(fired0);
                 match r {
                     Ok(v) => v,
                     Err(p) => {
@@ -1222,13 +1320,19 @@ fn exec(ctx: &mut RunCtx, w: &mut World, op: &Op) -> Step<()> {
                 Ok(b) => format!("{} bytes", b.len()),
                 Err(e) => err_kind(e).to_string(),
             });
-            let open_fail = matches!(fault, Some(Fault::OpenFail));
+            // a failing read of the layer that holds the file: the error must be reported,
+            // not papered over with a lower layer's copy
+            let open_fail = matches!(fault, Some(Fault::OpenFail)) || io_fired;
+            if io_fired {
+                ctx.probe("read_error_injected_on_holding_layer");
+            }
             match (&exp, &got) {
                 (ReadExp::LocErr, Ok(_)) => {
                     return ctx.violation_for("C14", "localize_table", "read|accepted_unlocalizable_path".to_string(), format!("read({:?}, localized) succeeded for {:?}/{:?}", path, hc.game, hc.lang));
                 }
                 (ReadExp::LocErr, Err(_)) => {}
                 (ReadExp::NotFound, Ok(b)) => {
+                    let owner = refine_owner(w, *h, path, *loc, owner, &|fs, p| matches!(fs.read(p, false), Err(LayeredFilesystemError::FileNotFound(_, _))));
                     return ctx.violation_for(owner, "return_value", "read|found_missing_file".to_string(), format!("read({:?}) returned {} bytes although no layer of the stack {:?} holds that file", path, b.len(), hc.stack));
                 }
                 (ReadExp::NotFound, Err(e)) => {
@@ -1242,6 +1346,8 @@ fn exec(ctx: &mut RunCtx, w: &mut World, op: &Op) -> Step<()> {
                         // which layer did the bytes come from?
                         let c = model_path(&hc, path, *loc).unwrap_or_default();
                         let lower = hc.stack.iter().any(|l| matches!(w.m.layers[*l].node(&c), Some(Node::File(x)) if &x == b || classify_for(hc.game, &x) == Verdict::Conforming(b.clone())));
+                        let d2 = d.clone();
+                        let owner = if open_fail { owner } else { refine_owner(w, *h, path, *loc, owner, &move |fs, p| matches!(fs.read(p, false), Ok(x) if x == d2)) };
                         return ctx.violation_for(
                             owner,
                             "return_value",
@@ -1267,9 +1373,11 @@ fn exec(ctx: &mut RunCtx, w: &mut World, op: &Op) -> Step<()> {
                 }
                 (ReadExp::Bytes(_), Err(e)) => {
                     if open_fail {
-                        ctx.fault("open_fail");
+                        ctx.fault(if io_fired { "io_error_read" } else { "open_fail" });
                         w.faults += 1;
                     } else {
+                        let d2 = match &exp { ReadExp::Bytes(d) => d.clone(), _ => Vec::new() };
+                        let owner = refine_owner(w, *h, path, *loc, owner, &move |fs, p| matches!(fs.read(p, false), Ok(x) if x == d2));
                         return ctx.violation_for(owner, "return_value", "read|rejected_existing_file".to_string(), format!("read({:?}) failed: {}", path, e));
                     }
                 }
@@ -1318,6 +1426,15 @@ fn exec(ctx: &mut RunCtx, w: &mut World, op: &Op) -> Step<()> {
                 _ => false,
             };
             if !same {
+                let owner = match &want {
+                    Ok(wb) => {
+                        let wb = *wb;
+                        refine_owner(w, *h, path, *loc, owner, &move |fs, p| {
+                            matches!(match k { Kind::File => fs.file_exists(p, false), Kind::Dir => fs.directory_exists(p, false), Kind::Any => fs.exists(p, false) }, Ok(x) if x == wb)
+                        })
+                    }
+                    Err(_) => owner,
+                };
                 return ctx.violation_for(owner, "return_value", format!("{}|wrong_answer", api), format!("{}({:?}, loc={}) = {:?}, model {:?} (stack {:?})", api, path, loc, got.map_err(|e| e.to_string()), want, hc.stack));
             }
             Ok(())
@@ -1345,6 +1462,8 @@ fn exec(ctx: &mut RunCtx, w: &mut World, op: &Op) -> Step<()> {
             let got = ctx.mila("resolve", || fs.resolve(path, *loc))?;
             ctx.outcome("resolve", if got.is_some() { "some" } else { "none" }, "");
             if got != want {
+                let want2 = want.clone();
+                let owner = refine_owner(w, *h, path, *loc, owner, &move |fs, p| fs.resolve(p, false) == want2);
                 return ctx.violation_for(owner, "return_value", "resolve|wrong_answer".to_string(), format!("resolve({:?}, loc={}) = {:?}, model {:?}", path, loc, got, want));
             }
             Ok(())
@@ -1385,24 +1504,36 @@ fn exec(ctx: &mut RunCtx, w: &mut World, op: &Op) -> Step<()> {
             let hc = w.handles[*h].cfg.clone();
             let want: Result<Vec<String>, ()> = model_path(&hc, dir, *loc).map(|c| w.m.list(&hc.stack, &c, pat.as_deref())).map_err(|_| ());
             let fs = &w.handles[*h].fs;
-            let got = faulted(ctx, fault, "list", || fs.list(dir, pat.as_deref(), *loc))?;
+            let fired0 = io_fired_count();
+            arm_io(fault, "list", &w.root);
+            let got = faulted(ctx, fault, "list", || fs.list(dir, pat.as_deref(), *loc));
+            let io_fired = disarm_io(fired0);
+            let got = got?;
             ctx.outcome("list", if got.is_ok() { "ok" } else { "err" }, &format!("{:?}", got.as_ref().map(|v| v.len()).map_err(|e| e.to_string())));
-            let open_fail = matches!(fault, Some(Fault::OpenFail));
+            let open_fail = matches!(fault, Some(Fault::OpenFail)) || io_fired;
             match (&got, &want) {
                 (Err(_), Err(_)) => {}
+                (Err(_), Ok(_)) if io_fired => {
+                    // a failing directory read may be reported as an error
+                    ctx.fault("io_error_list");
+                    w.faults += 1;
+                }
                 (Ok(g), Ok(wv)) => {
                     let sorted = g.windows(2).all(|p| p[0] < p[1]);
                     if !sorted {
                         return ctx.violation_for(owner, "listing", "list|not_sorted_unique".to_string(), format!("list({:?}, {:?}) is not strictly ascending: {:?}", dir, pat, g));
                     }
                     if open_fail {
-                        ctx.fault("open_fail");
+                        ctx.fault(if io_fired { "io_error_list" } else { "open_fail" });
                         w.faults += 1;
                         // directory reads fail: a subset is all that can be required
                         if let Some(x) = g.iter().find(|x| !wv.contains(x)) {
                             return ctx.violation_for(owner, "listing", "list|invented_entry".to_string(), format!("list({:?}, {:?}) under failing directory reads returned {:?}, which no layer holds", dir, pat, x));
                         }
                     } else if g != wv {
+                        let wv2 = wv.clone();
+                        let pat2 = pat.clone();
+                        let owner = refine_owner(w, *h, dir, *loc, owner, &move |fs, p| matches!(fs.list(p, pat2.as_deref(), false), Ok(x) if x == wv2));
                         let missing: Vec<&String> = wv.iter().filter(|x| !g.contains(x)).collect();
                         let extra: Vec<&String> = g.iter().filter(|x| !wv.contains(x)).collect();
                         return ctx.violation_for(
@@ -1462,6 +1593,13 @@ fn exec(ctx: &mut RunCtx, w: &mut World, op: &Op) -> Step<()> {
                 _ => false,
             };
             if !same {
+                let owner = match &want {
+                    Ok(wv) => {
+                        let wv = wv.clone();
+                        refine_owner(w, *h, dir, *loc, owner, &move |fs, p| matches!(fs.subdirectories(p, false), Ok(x) if x == wv))
+                    }
+                    Err(_) => owner,
+                };
                 return ctx.violation_for(owner, "listing", "subdirectories|wrong_entries".to_string(), format!("subdirectories({:?}, loc={}) = {:?}, model {:?} (stack {:?})", dir, loc, got.map_err(|e| e.to_string()), want, hc.stack));
             }
             if let Ok(g) = &got {
